@@ -178,7 +178,13 @@ def folded_value(ast, S):
         v = ast.args[0]
         if v != v:
             return F.NAN
-        return F.bits_of_pyfloat(v, S)
+        try:
+            b = F.bits_of_pyfloat(v, S)
+        except OverflowError:
+            return ("not-a-value-of-the-sort", repr(v))
+        if S is F.FLOAT and F.pyfloat_of_bits(b, S) != v:
+            return ("not-a-value-of-the-sort", repr(v))  # a FLOAT leaf holding a double that is not a single-precision value
+        return b
     if ast.op == "BVV":
         return ast.args[0]
     if ast.op == "BoolV":
@@ -198,7 +204,7 @@ def _cmp(part, sig, case, exp, got, S, detail):
     if not ok:
         d = dict(detail)
         d["expected"] = F.show(exp, S) if S is not None else exp
-        d["got"] = F.show(got, S) if S is not None and (got == F.NAN or isinstance(got, int)) else str(got)
+        d["got"] = F.show(got, S) if S is not None and (got == F.NAN or (isinstance(got, int) and not isinstance(got, bool))) else str(got)
         part.fail(sig, case, d, {"kind": "fp", "case": case})
     return ok
 
@@ -286,6 +292,33 @@ def _job(item):
                 part.fail(f"FPV:raised:{type(e).__name__}", f"FPV|{la}", {"error": str(e)[:160]})
     if mode == "closure":
         return part.dump()
+    # -- FPV(python float, FLOAT): the leaf must carry the double rounded to single precision (RNE) ------------
+    if S is F.FLOAT and rm == "RNE":
+        from fractions import Fraction
+
+        doubles = set(V.fp_alphabet(F.DOUBLE, "full"))
+        for q in (
+            (1 << 24) + 1, (1 << 24) + 3, (1 << 25) - 1, (1 << 25) + 1, (1 << 25) + 3, (1 << 26) - 1, -((1 << 24) + 1), (1 << 31) + 129, (1 << 53) - 1,
+            Fraction(1) + Fraction(1, 1 << 24), Fraction(1) + Fraction(3, 1 << 25), Fraction(1, 10), Fraction(1, 3), Fraction(16777217, 2), Fraction(33554433, 4),
+            Fraction(1, 1 << 149), Fraction(3, 1 << 150), Fraction(1, 1 << 150), Fraction(2) ** 128 - Fraction(2) ** 103, Fraction(2) ** 127 * Fraction(3, 2),
+        ):
+            doubles.add(F.round_fraction(Fraction(q), F.DOUBLE, "RNE"))
+        for d in sorted(doubles):
+            part.count("transitions")
+            part.count("fpv_from_double")
+            pd = F.pyfloat_of_bits(d, F.DOUBLE)
+            exp = F.convert(d, F.DOUBLE, F.FLOAT, "RNE")
+            case = f"fold|FPV(double->FLOAT)|{F.show(d, F.DOUBLE)}"
+            try:
+                leaf = claripy.FPV(pd, V.CL_SORT["FLOAT"])
+                _cmp(part, "fold:FPV:from-double", case, exp, folded_value(leaf, F.FLOAT), F.FLOAT, {"double": F.show(d, F.DOUBLE)})
+                # and what a further folded operation and the Z3 translation make of that leaf
+                one = claripy.FPV(1.0, V.CL_SORT["FLOAT"])
+                if exp != F.NAN:
+                    _cmp(part, "fold:FPV:from-double+1", case + "|+1.0", F.add(exp, F.bits_of_pyfloat(1.0, F.FLOAT), F.FLOAT, "RNE"), folded_value(claripy.fpAdd(crm, leaf, one), F.FLOAT), F.FLOAT, {"double": F.show(d, F.DOUBLE)})
+                    _cmp(part, "solve:FPV:from-double", "solve|" + case[5:], exp, zvalue(claripy.backends.z3.convert(leaf), F.FLOAT), F.FLOAT, {"double": F.show(d, F.DOUBLE)})
+            except Exception as e:  # noqa: BLE001
+                part.fail(f"fold:FPV:from-double:raised:{type(e).__name__}", case, {"error": str(e)[:160]})
     # -- BV -> FP ------------------------------------------------------------------------------
     cs = V.CL_SORT[S.name]
     for w in (8, 32, 64):
